@@ -1905,7 +1905,9 @@ class System:
         out = out[ltzero_idx]
         names = [names[i] for i in ltzero_idx]
 
-        # make into an OrderedDict with unique keys and model names combined
+        # make into an OrderedDict with unique keys and model names combined.
+        # The schedule is rebuilt from scratch so that it stays sorted and free of stale times.
+        self.switch_dict = OrderedDict()
         for i, j in zip(out, names):
             if i not in self.switch_dict:
                 self.switch_dict[i] = {j: self.models[j]}
